@@ -223,9 +223,21 @@ def method_attr_programs(tier):
                 yield ("mattr_if", "".join(map(str, perm)), "interface", Interface(name="If", module="ifc", methods=tuple(ms), custom="msg=Empty, query=Empty"))
 
 
+def item_position_programs(tier):
+    """The same handlers with an associated const and a helper method standing at every position among them."""
+    a = (Arg("a", "u32"),)
+    hs = (Method("instantiate", "inst", a), Method("exec", "e_one", a), Method("query", "q_one", a, qret="u32"), Method("exec", "e_two", ()), Method("sudo", "s_one", a))
+    for pos in range(len(hs) + 1):
+        for pos2 in (0, len(hs)):
+            mids = ((pos, "pub const LIMIT: u32 = 3;"), (pos2, "fn helper(&self) -> u32 { Self::LIMIT }"))
+            mids_in = tuple(m for m in mids if m[0] < len(hs))
+            extra = tuple(t for (p, t) in mids if p >= len(hs))
+            yield ("mitems_ct", "%d.%d" % (pos, pos2), "contract", Contract(methods=hs, mid_items=mids_in, extra_items=extra))
+
+
 def run_e1(res, tier):
     recs, meta = [], {}
-    for gen in (method_programs, reply_groups, attr_programs, method_attr_programs):
+    for gen in (method_programs, reply_groups, attr_programs, method_attr_programs, item_position_programs):
         for gid, perm, mac, obj in gen(tier):
             pid = "%s:%s" % (gid, perm)
             if pid in meta:
